@@ -200,7 +200,8 @@ ERROR_PATHS = [
     ("io.serialize_feat_dict: assert isinstance(feat, _MultiTensor) / dict / MultiNestedTensor / Tensor",
      "malformed:* (a stype holding the wrong container class)", "malformed:silently-different"),
     ("io.deserialize_feat_dict: assert isinstance(feat_serialized, Tensor)", "crafted:dense-stype-given-dict",
-     "crafted:inconsistent-frame"),
+     "crafted:inconsistent-frame; model: check_crafted (Model/IO.v load on the same payload; theorem "
+     "load_returns_only_wellformed_frames)"),
     ("MultiNestedTensor( **d ) / MultiEmbeddingTensor( **d ): TypeError on a missing key, validate() asserts",
      "crafted:mnt-missing-key, crafted:mnt-offset-too-short, crafted:met-as-mnt", "crafted:inconsistent-frame"),
     ("TensorFrame( **tf_dict ).validate(): key sets, num_cols, num_rows, len(y)",
@@ -1136,6 +1137,18 @@ def run_crafted(case):
         payload = d
     p = fresh_path("cr")
     obs = {"expected": obs_frame(tf)}
+
+    def tree(v):
+        if isinstance(v, torch.Tensor):
+            return {"t": "tensor", "v": enc_tensor(v)}
+        if isinstance(v, dict):
+            return {"t": "dict", "v": [[k, tree(x)] for k, x in v.items()]}
+        return {"t": "int", "v": int(v)}
+    if payload is not d:
+        obs["payload"] = {"y": None if d["y"] is None else enc_tensor(d["y"]),
+                          "names": sorted([k.value, list(v)] for k, v in d["col_names_dict"].items()),
+                          "ser": sorted(([k.value, tree(v)] for k, v in ser.items()), key=lambda kv: kv[0]),
+                          "num_rows": d.get("num_rows")}
     try:
         torch.save(payload, p)
         try:
@@ -1149,7 +1162,7 @@ def run_crafted(case):
             o2 = obs_frame(tf2)
             rows = {p_[1] if k in ("nested", "embed") else (p_[1][0] if k == "tensor" else None)
                     for _, k, p_ in o2["feats"] if k != "dict"}
-            obs.update(consistent=rows <= {o2["n"]}, got=o2)
+            obs.update(consistent=rows <= {o2["n"]}, got=o2, got_stats=stats_json(st2))
         except Exception as ex:
             obs.update(consistent=False, why=C.exc_name(ex) + ": " + str(ex)[:200])
         return obs
@@ -2310,9 +2323,27 @@ def ascii_ok(raw):
         all(k in ("tensor", "nested", "embed", "dict") for _, k, _ in raw["feats"])
 
 
+def coq_ser(t):
+    if t["t"] == "tensor":
+        return f"(@STensor ctensor {coq_ct(t['v'])})"
+    if t["t"] == "int":
+        return f"(@SInt ctensor {C.cnat(t['v'])})"
+    return "(@SDict ctensor " + C.clist(t["v"], lambda kv: f"({C.cstr(kv[0])}, {coq_ser(kv[1])})") + ")"
+
+
 def coq_term(case, obs):
     if obs is None or "skip" in obs or "harness_exc" in obs:
         return None
+    if case["kind"] == "crafted":
+        # Model/IO.v load on the crafted payload (class dispatch, keyword constructors, both validate()s)
+        pl = obs.get("payload")
+        if pl is None or (not obs["raised"] and not obs.get("consistent")):
+            return None
+        ser = C.clist(pl["ser"], lambda kv: f"({coq_st(kv[0])}, {coq_ser(kv[1])})")
+        td = (f"(@MkTD ctensor {C.copt(pl['y'], coq_ct)} {coq_names(pl['names'])} {ser} "
+              f"{C.copt(pl['num_rows'], C.cnat)})")
+        iobs = "IRaise" if obs["raised"] else f"(IMat {coq_frame_obs(obs['got'])} {C.cz(digest(obs['got_stats']))})"
+        return f"check_crafted ({td}, {C.cz(digest(None))}) {iobs}"
     if case["kind"] == "saveload":
         if not ascii_ok(obs["raw"]):
             return None
@@ -2335,6 +2366,11 @@ def coq_term(case, obs):
         terms = [coq_term(dict(st, kind="saveload"), o) for st, o in zip(case["steps"], obs["steps"])]
         if not terms or any(t is None for t in terms):
             return None
+        # Model/IOSup.v: all the saves onto ONE path (truncating open), then load = the last one
+        if len(obs["steps"]) == len(case["steps"]) and all(o.get("ok") for o in obs["steps"]):
+            seq = C.clist(obs["steps"], lambda o: f"({coq_frame(o['raw'])}, {C.cz(digest(o['pre_stats']))})")
+            last = obs["steps"][-1]
+            terms.append(f"check_reuse {seq} (IMat {coq_frame_obs(last['post'])} {C.cz(digest(last['post_stats']))})")
         return "(" + " && ".join(terms) + ")"
     if case["kind"] == "history":
         if not all(ascii_ok(r["raw"]) for r in obs["refs"]) or len(obs["steps"]) != len(case["events"]):
